@@ -270,6 +270,22 @@ class Lib:
             lo, hi, step = idx[1:]
             if lo is None and hi is None and step is None:
                 return dim
+            if step is None and dim is not None:
+                # python slice semantics for nonnegative bounds:
+                # count = max(0, min(hi, dim) - min(lo, dim))
+                try:
+                    kd, td = ex.num(st, dim)
+                    tl = ex.num(st, lo)[1] if lo is not None else \
+                        z3.IntVal(0)
+                    th = ex.num(st, hi)[1] if hi is not None else td
+                except Exception:
+                    return 'unknown'
+                if kd == 'int' and z3.is_int(tl) and z3.is_int(th):
+                    nonneg = z3.And(tl >= 0, th >= 0)
+                    if ex.decide(st, nonneg) is True:
+                        mn = lambda a, b: z3.If(a <= b, a, b)
+                        c = mn(th, td) - mn(tl, td)
+                        return I(z3.If(c >= 0, c, 0))
             return 'unknown'
         if isinstance(idx, Ref):
             o = st.heap[idx.oid]
@@ -293,7 +309,9 @@ class Lib:
                                            'unknown' else c1)
                 return self.new_matrix(ex, st, nr, nc, o.f['tc'],
                                        site=n.lineno)
-        c = self.index_count(ex, st, idx, None, n)
+        c = self.index_count(ex, st, idx, self.mul(
+            ex, st, o.f['nrows'], o.f['ncols']) if isinstance(idx, tuple)
+            and idx and idx[0] == 'slice' else None, n)
         if c is None:
             return self.elem_value(ex, st, o)
         if c == 'unknown' or c is None:
@@ -303,8 +321,13 @@ class Lib:
                 None, None, None):
             nr, nc = o.f['nrows'], o.f['ncols']
             c = self.mul(ex, st, nr, nc)
-        sym = z3.IntVal(0)
-        return self.new_matrix(ex, st, c, 1, o.f['tc'], site=n.lineno)
+        r = self.new_matrix(ex, st, c, 1, o.f['tc'], site=n.lineno)
+        if isinstance(idx, tuple) and idx and idx[0] == 'slice':
+            lo = idx[1]
+            cl, kl = const_of(lo) if lo is not None else (True, 0)
+            st.heap[r.oid].f['slice_lo'] = kl if cl else None
+            st.heap[r.oid].f['slice_src'] = ref.oid
+        return r
 
     def mul(self, ex, st, a, b):
         ca, va = const_of(a)
@@ -334,9 +357,31 @@ class Lib:
         ex.note(st, 'item store on unmodelled object')
 
     def delete(self, ex, st, t, fid):
+        if isinstance(t, ast.Subscript):
+            base = ex.ev(t.value, st, fid)
+            idx = ex.ev_index(t.slice, st, fid)
+            if isinstance(base, Ref) and st.heap[base.oid].kind == 'dict':
+                o = st.heap[base.oid]
+                c, k = const_of(idx)
+                if c and isinstance(k, (str, int)):
+                    has = ex.dict_has(st, base, k)
+                    d = has if isinstance(has, bool) else ex.decide(st, has)
+                    if d is False:
+                        raise PyRaise('KeyError', k)
+                    if d is None:
+                        raise NeedFork(has)
+                    self.on_mutate(ex, st, base, 'del dict item', t)
+                    o.f['items'] = dict(o.f['items'])
+                    del o.f['items'][k]
+                    if k in o.f.get('present', {}):
+                        o.f['present'] = dict(o.f['present'])
+                        del o.f['present'][k]
+                    return
         ex.note(st, 'del statement on non-name target')
 
     def unpack(self, ex, st, v, k, s):
+        if v is None or isinstance(v, (bool, int, float)):
+            raise PyRaise('TypeError', 'cannot unpack non-iterable object')
         if isinstance(v, Unknown):
             return [Unknown('unpacked') for _ in range(k)]
         if isinstance(v, Ref):
@@ -361,7 +406,7 @@ class Lib:
         if e[0] == 'const':
             return e[1]
         if e[0] == 'map':
-            return e[1](k)
+            return e[1](ex, st, k)
         return Unknown('list element')
 
     def symlist_item(self, ex, st, ref, idx, n):
@@ -369,6 +414,8 @@ class Lib:
         if 'items' in o.f:
             return ex.list_getitem(st, ref, idx, n)
         kk, t = ex.num(st, idx, n)
+        if kk == 'real':
+            t = z3.ToInt(t)
         ln = o.f['len'].t
         tt = z3.If(t >= 0, t, ln + t)
         d = ex.decide(st, z3.And(tt >= 0, tt < ln))
@@ -499,7 +546,12 @@ class Lib:
         proto = elem(kf)
         if isinstance(proto, (I, int, bool)):
             pt = ex.num(st, proto)[1]
-            fn = lambda kt, pt=pt, kf=kf: z3.substitute(pt, (kf, kt))
+            def fn(kt, pt=pt, kf=kf):
+                if isinstance(kt, int):
+                    kt = z3.IntVal(kt)
+                if z3.is_real(kt):
+                    kt = z3.ToInt(kt)
+                return z3.substitute(pt, (kf, kt))
             name = ex.fresh('comp@%d' % n.lineno)
             return ex.alloc(st, 'list', {'len': ln, 'elem': ('fn', fn)},
                             {'site': n.lineno, 'owner': 'FRESH',
